@@ -125,6 +125,30 @@ func flowRules(arg string) []*flow.Rule {
 	return rs
 }
 
+func hotRules(arg string) []*hotspot.Rule {
+	var rs []*hotspot.Rule
+	for _, s := range split(arg) {
+		n := nums(s)
+		if len(n) != 13 {
+			panic("bad hotspot rule " + s)
+		}
+		var items map[interface{}]int64
+		switch n[10] {
+		case 1:
+			items = map[interface{}]int64{}
+		case 2:
+			items = map[interface{}]int64{int(n[11]): int64(n[12])}
+		}
+		rs = append(rs, &hotspot.Rule{
+			ID: strconv.FormatUint(n[0], 10), Resource: resName(n[1]), MetricType: hotspot.MetricType(n[2]),
+			ControlBehavior: hotspot.ControlBehavior(n[3]), ParamIndex: int(n[4]), Threshold: int64(n[5]),
+			MaxQueueingTimeMs: int64(n[6]), BurstCount: int64(n[7]), DurationInSec: int64(n[8]), ParamsMaxCapacity: int64(n[9]),
+			SpecificItems: items,
+		})
+	}
+	return rs
+}
+
 func (it *Interp) Step(t []string, op string) string {
 	if t[0] == "phase" {
 		// the same traffic once more, from scratch, without the reloads
@@ -173,9 +197,23 @@ func (it *Interp) step(t []string, op string) string {
 			return "err"
 		}
 		return ""
+	case "hot.load", "hot.reload":
+		if _, err := hotspot.LoadRules(hotRules(t[1])); err != nil {
+			return "err"
+		}
+		return ""
+	case "hot.loadres", "hot.reloadres":
+		if _, err := hotspot.LoadRulesOfResource(resName(vh.U(t[1])), hotRules(t[2])); err != nil {
+			return "err"
+		}
+		return ""
 	case "e":
 		it.clk.slept = 0
-		e, b := sentinel.Entry(resName(vh.U(t[1])))
+		var opts []sentinel.EntryOption
+		if len(t) > 3 && t[3] != "0" {
+			opts = append(opts, sentinel.WithArgs(int(vh.U(t[3]))))
+		}
+		e, b := sentinel.Entry(resName(vh.U(t[1])), opts...)
 		if b != nil {
 			id := "-"
 			switch r := b.TriggeredRule().(type) {
